@@ -185,4 +185,83 @@ theorem C02_modifier_legal (c : ClsDesc) (hmem : c ∈ Generated.palette)
     · simp [legalArg, noArgKeys, modifiers, (kf hv).1]
     · intro hin; simp [legalArg, noArgKeys, modifiers, (kf hin).2]
 
+/-- table check used by the class-level theorem -/
+def delayClassOk : Bool :=
+  Generated.palette.all fun c =>
+    (c.cname != "Delay" && c.cname != "DefaultDelay") ||
+      (c.argReq == .required && c.argType == .int && c.hooks.contains "verify_arg" && !c.hooks.contains "format_arg" &&
+       c.names.all (delayNames.contains ·) && c.names.all (fun n => !n.toList.contains ' '))
+
+theorem delayClass_facts : delayClassOk = true := by decide
+
+/-- **DELAY / DEFAULT_DELAY, every delivery form**: whatever `SimpleCommand.compile` emits for these classes — the argument
+    written inline, in a group, as first argument plus group, or `$`-evaluated from any expression (variables, parameters
+    and loop counters included) — every emitted line is `NAME <non-negative integer literal>` -/
+theorem C02_delay_class (child : Option ChildFn) (ctx : Ctx) (c : ClsDesc) (hmem : c ∈ Generated.palette)
+    (hc : c.cname = "Delay" ∨ c.cname = "DefaultDelay") (word : Str) (line : Nat) (arg : Option Str) (block : Option (List Node))
+    (st : St) (r : Out) (hname : String.ofList (upper (nameOf word)) ∈ c.names)
+    (h : compileSimple child ctx c word line arg block st = .ok r) :
+    ∀ l ∈ r.out, legalLine l = true := by
+  have hfacts := List.all_eq_true.mp delayClass_facts c hmem
+  have hcn : (c.cname != "Delay" && c.cname != "DefaultDelay") = false := by rcases hc with h | h <;> simp [h]
+  simp only [hcn, Bool.false_or, Bool.and_eq_true, beq_iff_eq, List.all_eq_true, List.contains_iff_mem, Bool.not_eq_true',
+    decide_eq_true_eq] at hfacts
+  obtain ⟨⟨⟨⟨⟨hreq, hty⟩, hva⟩, hnf⟩, hnames⟩, hnosp⟩ := hfacts
+  simp only [compileSimple, R.bind_eq_ok] at h
+  obtain ⟨⟨name, items, st'⟩, hpre, hmulti⟩ := h
+  obtain ⟨hnm, _, _, _, args, _, hitems, hreq', _, hargs⟩ := simplePre_spec ctx c word line arg block st name items st' hpre
+  subst hnm
+  have hw_delay := hnames _ hname
+  have hsp : ' ' ∉ upper (nameOf word) := by
+    have := hnosp _ hname
+    simpa using this
+  have hhf : hasHook c "format_arg" = false := hnf
+  have hfmt : ∀ a : Arg, formatArg c a = a := by
+    intro a; simp [formatArg, hhf]
+  refine C02_multi_invariant (fun l => legalLine l = true) child ctx c (nameOf word) line items st' [] .normal r hmulti
+    (by intro l hl; cases hl) ?_
+  intro a ha stx rc hrc l hl
+  -- items are the verified arguments (there is at least one: the argument is required)
+  have hne : args ≠ [] := fun he => hreq' he hreq
+  have hemp : args.isEmpty = false := by cases args <;> simp_all
+  simp only [hitems, itemsOf, hemp, Bool.false_eq_true, if_false, List.mem_map] at ha
+  obtain ⟨a0, ha0, rfl⟩ := ha
+  obtain ⟨hty0, _, hv0⟩ := hargs a0 ha0
+  rw [hty] at hty0
+  obtain ⟨i, hi, hnn⟩ := C02_delay_hook c hc (by simp [hasHook, hva]) a0 hty0 hv0
+  rw [hfmt] at hrc
+  have hnr : (c.cname == "Run") = false := by rcases hc with h | h <;> simp [h]
+  have hns : (c.cname == "Start") = false := by rcases hc with h | h <;> simp [h]
+  simp only [runCompile, hnr, hns, Bool.and_false, Bool.false_eq_true, if_false] at hrc
+  -- both classes emit through `defaultEmit`
+  have hemit : ∀ ls, defaultEmit (nameOf word) (some a0) = .ok ls → ∀ l ∈ ls, legalLine l = true := by
+    intro ls hls l hl
+    simp only [defaultEmit, hi] at hls
+    split at hls
+    · cases hls
+    · cases hls
+      simp only [List.mem_singleton] at hl
+      subst hl
+      exact C02_delay_legal _ hw_delay (upper (nameOf word)) rfl hsp i hnn
+  -- what `run_compile` hands back when it goes through `defaultEmit`
+  have hvia : ∀ (stx' : St), (defaultEmit (nameOf word) (some a0) >>= fun ls => (R.ok { st := stx', out := ls, sig := some Sig.normal } : R RC)) = .ok rc →
+      ∀ l ∈ rc.out, legalLine l = true := by
+    intro stx' hb l hl
+    cases hd : defaultEmit (nameOf word) (some a0) with
+    | ok ls => rw [hd] at hb; simp only [R.bind_ok, R.ok.injEq] at hb; subst hb; exact hemit ls hd l hl
+    | err e => rw [hd] at hb; cases hb
+    | crash e => rw [hd] at hb; cases hb
+    | oom w => rw [hd] at hb; cases hb
+  unfold runCompileLocal at hrc
+  simp only [] at hrc
+  split at hrc
+  · exact hvia _ hrc l hl
+  · rcases hc with hcd | hcd
+    · simp only [hcd] at hrc
+      exact hvia _ hrc l hl
+    · simp only [hcd] at hrc
+      split at hrc
+      · simp [raise] at hrc
+      · exact hvia _ hrc l hl
+
 end Duckling.Props.C02
